@@ -37,6 +37,9 @@ def configs(tier):
     for s in [(2, 1), (2, 2), (1, 1, 1)]:
         for mode in ("best", "soft"):
             out.append(dict(key=f"returned-{mode},sizes={s}", sizes=list(s), mode=mode, dissim="abstract", backend="cbc", cost=500))
+    # the third kind of returned alignment: fast (window covering everything, so that one MIP is solved), incl. a unit-less annotator
+    for s_ in [(2, 1), (2, 1, 0)]:
+        out.append(dict(key=f"returned-fast,sizes={s_},window=1", sizes=list(s_), mode="fast1", dissim="abstract", backend="cbc", cost=500))
     # real dissimilarities on continua with unlabelled and ''-labelled units (the recompute path builds its own arrays)
     for lab in ("mixed", "empty-string", "none"):
         out.append(dict(key=f"returned-best,sizes=(2, 1),combined-fixedcoords,labels={lab}", sizes=[2, 1], mode="best", dissim="combined", labels=lab, coords="fixed",
